@@ -18,7 +18,7 @@ class Prop:
     id = "C15"
     level = "exploration"
     engine = "VT"
-    quick_runs = 60000
+    quick_runs = 80000
     thorough_runs = 2500000
     rule = ("one generated cold/hot/sync timeline through delay (0 / float / timedelta / absolute datetime), delay_subscription "
             "(relative / absolute), delay_with_mapper (with and without subscription delay; delay sources from a cold pool), timestamp "
